@@ -219,10 +219,37 @@ func c05Alphabet(s *sessSys) []sessReq {
 			add("del", sessReq{sReq: sReq{Kind: kDel, Conn: c}, Sess: x.Idx})
 			add("srr-context-not-found", sessReq{sReq: sReq{Kind: kSRR, Conn: c, Cause: ie.CauseSessionContextNotFound}, Sess: x.Idx})
 			if c == 0 {
-				if f := x.far(2); f != nil && f.OHCTEID != 0x7001 {
+				if f := x.far(2); f != nil && f.OHCTEID != 0x7001 && f.OHCIP != "" {
 					add("mod-ufar", sessReq{sReq: sReq{Kind: kMod, Conn: c, UpdateFAR: []sFAR{{ID: 2, Action: ActionForward, HasFwd: true, HasDst: true, Dst: ie.DstInterfaceAccess, OHCIP: f.OHCIP, OHCTEID: 0x7001}}}, Sess: x.Idx})
 				}
 				add("mod-rejected-remove-unknown", sessReq{sReq: sReq{Kind: kMod, Conn: c, RemovePDR: []uint16{99}}, Sess: x.Idx})
+				// whatever a modification acquired, or left referenced, must be reclaimed by the ending as well
+				if f := x.far(2); f != nil && f.Action == ActionForward && f.OHCIP != "" {
+					// idle transition as some control planes send it: buffer, tunnel parameters still carried
+					add("mod-ufar-buffer-keep-tunnel", sessReq{sReq: sReq{Kind: kMod, Conn: c, UpdateFAR: []sFAR{{ID: 2, Action: ActionBuffer | ActionNotify, HasFwd: true, HasDst: true, Dst: ie.DstInterfaceAccess, OHCIP: f.OHCIP, OHCTEID: f.OHCTEID}}}, Sess: x.Idx})
+					add("mod-ufar-buffer", sessReq{sReq: sReq{Kind: kMod, Conn: c, UpdateFAR: []sFAR{{ID: 2, Action: ActionBuffer | ActionNotify, HasFwd: true}}}, Sess: x.Idx})
+					add("mod-ufar-drop-keep-tunnel", sessReq{sReq: sReq{Kind: kMod, Conn: c, UpdateFAR: []sFAR{{ID: 2, Action: ActionDrop, HasFwd: true, HasDst: true, Dst: ie.DstInterfaceAccess, OHCIP: f.OHCIP, OHCTEID: f.OHCTEID}}}, Sess: x.Idx})
+					other := c04Peers[0]
+					if f.OHCIP == other {
+						other = c04Peers[1]
+					}
+					add("mod-ufar-newpeer", sessReq{sReq: sReq{Kind: kMod, Conn: c, UpdateFAR: []sFAR{{ID: 2, Action: ActionForward, HasFwd: true, HasDst: true, Dst: ie.DstInterfaceAccess, OHCIP: other, OHCTEID: 0x7002}}}, Sess: x.Idx})
+				}
+				if f := x.far(2); f != nil && f.Action != ActionForward && f.OHCIP == "" {
+					add("mod-ufar-resume", sessReq{sReq: sReq{Kind: kMod, Conn: c, UpdateFAR: []sFAR{{ID: 2, Action: ActionForward, HasFwd: true, HasDst: true, Dst: ie.DstInterfaceAccess, OHCIP: c04Peers[0], OHCTEID: 0x7003}}}, Sess: x.Idx})
+				}
+				if !p4 && x.pdr(7) == nil && len(x.PDRs) > 0 {
+					// BESS: rules created and removed by modifications
+					ueip := x.PDRs[len(x.PDRs)-1].UEIP
+					if ueip == "" {
+						ueip = int2ip(x.PDRs[len(x.PDRs)-1].UE).String()
+					}
+					sp := sdfPDRs(7, ueip, 0x1f0, 40, "permit out udp from 10.9.0.0/16 81 to assigned", 1, 2, nil) // a match key no other PDR has
+					add("mod-create-pdrs", sessReq{sReq: sReq{Kind: kMod, Conn: c, CreatePDR: sp}, Sess: x.Idx})
+				}
+				if !p4 && x.pdr(7) != nil {
+					add("mod-remove-pdr7", sessReq{sReq: sReq{Kind: kMod, Conn: c, RemovePDR: []uint16{7}}, Sess: x.Idx})
+				}
 			}
 		}
 		add("release", sessReq{sReq: sReq{Kind: kRel, Conn: c}})
